@@ -71,6 +71,8 @@ pub struct LogObs {
     pub tfpf: Option<Result<Option<u64>, String>>,
 }
 
+pub const REAL_TABLE_MAX: usize = 256 << 10;
+
 /// A `Builder` that records what it is fed.
 #[derive(Default)]
 pub struct Collect(pub Vec<Entry>);
@@ -146,9 +148,11 @@ pub fn observe(bytes: &[u8], path: Option<&Path>, cap: usize) -> LogObs {
             Ok(v) => Ok(v),
             Err(e) => Err(short(&e)),
         });
+        // the real table builder (the KeyValueStore::open replay path) for logs below 256 KiB; the
+        // multi-block filler logs cost milliseconds per table and are covered by the collecting builder
         let out = path.with_extension("replayed.sst");
         let _ = std::fs::remove_file(&out);
-        o.table = Some(match sst::SstBuilder::new(sst::SstOptions::default(), &out) {
+        o.table = if bytes.len() > REAL_TABLE_MAX { None } else { Some(match sst::SstBuilder::new(sst::SstOptions::default(), &out) {
             Ok(b) => match sst::log::log_to_builder(sst::LogOptions::default(), path, b) {
                 Ok(None) => Ok(None),
                 Ok(Some(table)) => {
@@ -159,7 +163,7 @@ pub fn observe(bytes: &[u8], path: Option<&Path>, cap: usize) -> LogObs {
                 Err(e) => Err(short(&e)),
             },
             Err(e) => Err(format!("SstBuilder::new: {}", short(&e))),
-        });
+        }) };
         let _ = std::fs::remove_file(&out);
         o.tfpf = Some(sst::log::truncate_final_partial_frame(sst::LogOptions::default(), path).map_err(|e| short(&e)));
     }
@@ -277,9 +281,10 @@ impl Target for LogDamage {
         }
         let refused = sst_builder_refuses(&want);
         match &obs.table {
+            None if bytes.len() > REAL_TABLE_MAX => {}
             Some(Ok(Some(t))) if !refused && *t == want && obs.table_walk_err.is_none() => {}
             Some(Err(_)) if refused => {}
-            other => panic!("log_to_builder(SstBuilder) on the pristine log: expected {}, got {:?} (walk error {:?})", if refused { "a refusal by the builder" } else { "the sorted entries" }, other.map(|r| r.as_ref().map(|t| t.as_ref().map(|t| t.len()))), obs.table_walk_err),
+            other => panic!("log_to_builder(SstBuilder) on the pristine log: expected {}, got {:?} (walk error {:?})", if refused { "a refusal by the builder" } else { "the sorted entries" }, other.as_ref().map(|r| r.as_ref().map(|t| t.as_ref().map(|t| t.len()))), obs.table_walk_err),
         }
         if obs.tfpf != Some(Ok(None)) {
             panic!("truncate_final_partial_frame on the pristine log says {:?}", obs.tfpf);
